@@ -33,6 +33,12 @@ fn gen(seed: u64, idx: u64, _tier: Tier) -> Plan {
     } else {
         s.log_level = Some(*rng.pick(&[0u8, 0, 4]));
     }
+    if profile == 3 {
+        // deliberate response errors ("grease") change what a reply contains, not how many replies
+        // there are nor where they go
+        plan.scenario = "c09.many_clients_grease".into();
+        s.fault_pct = *rng.pick(&[5i64, 25, 50]);
+    }
     world_knobs(&mut rng, &mut plan, faulty);
     if faulty {
         plan.world.faults.send_err = *rng.pick(&[0u32, 30]);
@@ -86,7 +92,18 @@ fn check(plan: &Plan, out: &RunOut) -> CheckOut {
     co.nontrivial = !v.sends.is_empty();
     monitor_leak(&mut co, out);
     check_no_panic(&mut co, "C09", out);
-    check_validity(&mut co, "C09", &v);
+    let spec0 = plan.server.as_ref().unwrap();
+    if spec0.fault_pct == 0 {
+        check_validity(&mut co, "C09", &v);
+    } else {
+        // greased replies fail verification by design; a reply that answers nothing is still wrong
+        for s in &v.sends {
+            if s.request.is_none() {
+                co.violate("C09", "misrouted_response", "C09|unsolicited_send".into(), format!("datagram seq {} sent to {} which has no unanswered request at this worker", s.seq, s.dst));
+            }
+        }
+        co.probe("grease_profile");
+    }
     check_exactly_once(&mut co, "C09", &v, out, true);
     // client side: no client socket receives a response whose proof binds another socket's request.
     // Every delivered datagram was sent by a server socket; the send-side match (same worker,
